@@ -5178,6 +5178,10 @@ class DfaCompileCtx:
             if next_target is None or next_target.is_fallthrough:
                 continue
 
+            # A lookup with a set falls back to Else when the set straddles several transitions: every symbol must really take this one
+            if any(transition.target[symbol] is not next_target for symbol in effective):
+                continue
+
             # Nothing may follow an action that returns to the caller (yield) on the same transition: it would never run
             if any(x.may_return_early() for x in transition.actions):
                 continue
